@@ -14,6 +14,7 @@ CrossHair's, each exact on all Python integers (two's complement, unbounded):
                             multiple of 2^k and the other *necessarily* in [0, 2^k)
                             (decided by the solver, no fork; otherwise CrossHair's own
                             handler runs as before)
+* `-2^k | b` == -2^k + (b mod 2^k)   for a concrete -2^k (sign extension)
 * `a & m`  ==  ((a // 2^l) mod 2^w) * 2^l   for a concrete mask m made of w contiguous
                             one-bits starting at bit l (floor division, so also right for
                             negative a); other masks: CrossHair's own handler
@@ -66,6 +67,12 @@ def _range_checked(inner):
             src = a[0]
             with NoTracing():
                 plain_seq = type(src) in (tuple, list)
+                plain_iter = (not plain_seq) and hasattr(src, '__next__')
+            if plain_iter:
+                # generator / reversed / map ...: CrossHair would realise every element
+                src = list(src)
+                a = (src,)
+                plain_seq = True
             if plain_seq:
                 for x in src:
                     if isinstance(x, int):
@@ -105,6 +112,9 @@ def install():
             if ta is not None and tb is not None and (ta[1] or tb[1]):
                 space = context_statespace()
                 for (x, xs), (y, ys), xc in ((ta, tb, a), (tb, ta, b)):
+                    # x == -2^k concrete (all ones from bit k up): the result keeps y's low k bits
+                    if not xs and xc < 0 and (-xc) & (-xc - 1) == 0:
+                        return _bl.SymbolicInt(x + (y % (-xc)))
                     # x multiple of 2^k, y in [0, 2^k)
                     if xs:
                         ks = (8,)
